@@ -17,6 +17,11 @@ functions over the two declared bounds, so that the C19 theorems are re-checked 
   builtinMethod      which container method each EXPRESS built-in function of Builtin.py (SIZEOF HIINDEX LOINDEX HIBOUND LOBOUND
                      VALUE_UNIQUE) returns, after its `isinstance(V, Aggregate)` guard
 
+  *ChecksTypeFirst   statement order in the four mutators (ARRAY.__setitem__, LIST.__setitem__, BAG.add, SET.add): on every path
+                     `check_type(value, …)` runs before the first membership test on `value` (`value in …`) and before
+                     `value` is stored (python equality crosses EXPRESS types, so a membership shortcut taken first lets a
+                     wrong-typed value through)
+
 Supported expression forms: integer literals, bound_1/bound_2 (local or self._bound_N), + - *, unary -, parentheses.
 Anything else raises = broken tie.
 """
@@ -178,6 +183,55 @@ def _builtins(repo):
     return out
 
 
+def _uses_value(node):
+    """a membership test on `value` or a store of `value` inside node (an expression or simple statement)"""
+    for n in ast.walk(node):
+        if isinstance(n, ast.Compare) and any(isinstance(o, (ast.In, ast.NotIn)) for o in n.ops) \
+                and isinstance(n.left, ast.Name) and n.left.id == "value":
+            return True
+        if isinstance(n, ast.Call) and isinstance(n.func, ast.Attribute) and n.func.attr in ("add", "append", "insert") \
+                and any(isinstance(a, ast.Name) and a.id == "value" for a in n.args):
+            return True
+        if isinstance(n, ast.Assign) and isinstance(n.value, ast.Name) and n.value.id == "value" \
+                and any(isinstance(t, ast.Subscript) for t in n.targets):
+            return True
+    return False
+
+
+def _is_check(st):
+    return (isinstance(st, ast.Expr) and isinstance(st.value, ast.Call) and isinstance(st.value.func, ast.Name)
+            and st.value.func.id == "check_type" and st.value.args and isinstance(st.value.args[0], ast.Name)
+            and st.value.args[0].id == "value")
+
+
+def _checks_first(fn):
+    """True when on every path check_type(value, …) has run before `value` is tested for membership or stored"""
+    ok = [True]
+
+    def walk(stmts, checked):
+        for st in stmts:
+            if _is_check(st):
+                checked = True
+            elif isinstance(st, ast.If):
+                if not checked and _uses_value(st.test):
+                    ok[0] = False
+                c1 = walk(st.body, checked)
+                c2 = walk(st.orelse, checked) if st.orelse else checked
+                checked = c1 and c2
+            elif isinstance(st, (ast.For, ast.While, ast.With, ast.Try)):
+                raise ValueError(f"{fn.name}: unsupported statement {type(st).__name__}")
+            elif isinstance(st, (ast.Return, ast.Raise)):
+                if not checked and _uses_value(st):
+                    ok[0] = False
+                return True          # the path ends here
+            else:
+                if not checked and _uses_value(st):
+                    ok[0] = False
+        return checked
+    walk(fn.body, False)
+    return ok[0]
+
+
 def extract(repo):
     mode = _cmp_mode(repo)
     bi = _builtins(repo)
@@ -197,6 +251,7 @@ def extract(repo):
     size = _expr(_int_call_arg(_method(cls["ARRAY"], "get_size"), "ARRAY.get_size"))
     bag_cmp, bag_full = _full_at(cls["BAG"])
     set_cmp, set_full = _full_at(cls["SET"])
+    first = {k: _checks_first(_method(cls[k], m)) for k, m in (("ARRAY", "__setitem__"), ("LIST", "__setitem__"), ("BAG", "add"), ("SET", "add"))}
     lo = {}
     for k in ("LIST", "BAG", "SET"):
         a = _int_call_arg(_method(cls[k], "get_loindex"), f"{k}.get_loindex")
@@ -219,6 +274,12 @@ def setFullGe : Bool := {"true" if set_cmp == "GtE" else "false"}
 def listLoIndex : Int := {lo["LIST"]}
 def bagLoIndex : Int := {lo["BAG"]}
 def setLoIndex : Int := {lo["SET"]}
+
+/-- statement order of the mutators: on every path `check_type(value, …)` runs before `value` is tested for membership or stored -/
+def arraySetChecksTypeFirst : Bool := {"true" if first["ARRAY"] else "false"}
+def listSetChecksTypeFirst : Bool := {"true" if first["LIST"] else "false"}
+def bagAddChecksTypeFirst : Bool := {"true" if first["BAG"] else "false"}
+def setAddChecksTypeFirst : Bool := {"true" if first["SET"] else "false"}
 
 /-- how `check_type` compares the base type of an aggregate element with the expected base type ({TC}) -/
 inductive BaseCmp | identity | structural | structuralNoKind
